@@ -147,7 +147,7 @@ Proof.
           (memo nc nx nyE (fun v => Nat.leb (cnt G v) (length goals - 1))))).
   { apply Hit_band_l. apply Hit_bor; [apply Hit_bor|];
       [apply Hit_rho_1|apply Hit_rho_2|apply Hit_rho_3]. }
-  destruct plus_one; [exact H0|]. set (u0 := band _ _) in *.
+  destruct plus_one; cbn [negb]; [exact H0|]. set (u0 := band _ _) in *.
   destruct moore.
   - intros v Hv Hu He. rewrite forall_spec in Hu. cbn [forall_raw dom] in Hu.
     rewrite forallb_forall in Hu. specialize (Hu _ (inr_vxp' v Hv)).
